@@ -39,24 +39,27 @@ partial def valTo : Val → Sexp
 
 def env : Env := Gen.RawLayouts.env
 def root : Ty := .ref Gen.RawLayouts.classFileId
+/-- variants of `CpInfo` as translated -/
+def cpVariants : List Variant :=
+  match Gen.RawLayouts.defs[Gen.RawLayouts.cpInfoId]? with
+  | some (.enum _ _ _ vs _) => vs
+  | _ => []
 
 def fuelFor (bs : Bytes) : Nat := (bs.length + 2) * (env.defs.length + 1)
 
 def readClass (bs : Bytes) : Res (Val × Bytes) := read env (fuelFor bs) Gen.RawLayouts.classFileId none bs
 
-/-- the value lies outside the region of the open JVMS defect (long/double pool entries) -/
-def avoids (v : Val) : Bool := avoidsV env (knownBad Gen.RawLayouts.cpInfoId) root v
-
-/-- JVMS conformance of what the model writes for `v`: the output is a well-framed class file -/
-def jvmsOracle (full : Bool) (v : Val) : Ans :=
-  if !fitsV env none [] root v || !(full || avoids v) then .ok (tag "out-of-domain") else
+/-- JVMS conformance of what the model writes for `v` (domain: `fitsV`, long/double pool entries included): the output
+is a well-framed class file -/
+def jvmsOracle (v : Val) : Ans :=
+  if !fitsV env none [] root v then .ok (tag "out-of-domain") else
   match writeV env root v with
   | none => .ok (.list [tag "fail", tag "write-panics"])
-  | some b => if JvmsRaw.Walk.classFile false b then .ok (tag "pass") else .ok (.list [tag "fail", tag "not-framed"])
+  | some b => if JvmsRaw.Walk.classFile b then .ok (tag "pass") else .ok (.list [tag "fail", tag "not-framed"])
 
-/-- byte round trip on the domain of well-framed class files (`known`: without long/double pool entries, the open defect) -/
-def rtBytesOracle (known : Bool) (b : Bytes) : Ans :=
-  if !JvmsRaw.Walk.classFile known b then .ok (tag "out-of-domain") else
+/-- byte round trip on the domain of well-framed class files (long/double pool entries included) -/
+def rtBytesOracle (b : Bytes) : Ans :=
+  if !JvmsRaw.Walk.classFile b then .ok (tag "out-of-domain") else
   match read env ((b.length + 2) * (env.defs.length + 1)) Gen.RawLayouts.classFileId none b with
   | .ok (v, rest) =>
     if !rest.isEmpty then .ok (.list [tag "fail", tag "rest-not-empty"]) else
@@ -116,32 +119,29 @@ def handleC20 (op : String) (args : List Sexp) : Option Ans :=
         | .err => failAns "read-err"
         | .panic => failAns "read-panics"
         | .fuel => .skip "fuel")
-  | "oracle-rt-bytes", [b] => do
-    let b ← toBytes? b
-    pure (rtBytesOracle true b)
   | "oracle-rt-bytes-full", [b] => do
     let b ← toBytes? b
-    pure (rtBytesOracle false b)
-  | "oracle-jvms", [v] => do
-    let v ← valFrom v
-    if !typedV env root v then none else
-    pure (jvmsOracle false v)
+    pure (rtBytesOracle b)
   | "oracle-jvms-full", [v] => do
     let v ← valFrom v
     if !typedV env root v then none else
-    pure (jvmsOracle true v)
+    pure (jvmsOracle v)
   | "raw-golden", [] =>
     pure (match writeV env root goldenClass with
       | some b => .ok (.list [valTo goldenClass, ofBytes b])
       | none => panicAns)
-  | "raw-avoids", [v] => do
+  | "jvms-frame", [b] => do
+    let b ← toBytes? b
+    pure (.ok (ofBool (JvmsRaw.Walk.classFile b)))
+  -- theorem pool_count on one value: bytes 8-9 of what is written are the JVMS constant_pool_count
+  | "oracle-pool-count", [v] => do
     let v ← valFrom v
     if !typedV env root v then none else
-    pure (.ok (ofBool (avoids v)))
-  | "jvms-frame", [k, b] => do
-    let k ← toBool? k
-    let b ← toBytes? b
-    pure (.ok (ofBool (JvmsRaw.Walk.classFile k b)))
+    pure (match writeV env root v, v with
+      | some b, .node _ (_ :: _ :: .list es :: _) =>
+        if (b.drop 8).take 2 == be .u16 (JvmsRaw.jvmsPoolCount cpVariants es % 65536) then .ok (tag "pass")
+        else failAns "count-differs"
+      | _, _ => .ok (tag "out-of-domain"))
   | "raw-consts-agree", [b] => do
     let b ← toBytes? b
     pure (.ok (ofBool (constsAgree env (fuelFor b) Gen.RawLayouts.classFileId none b)))
